@@ -20,7 +20,7 @@ def run(tier):
         if n not in rep.regimes:
             raise common.MachineryError(f"C02: regime {n} not entered")
     conv = rep.regimes.get("solver_converged", 0)
-    if rep.regimes.get("kkt_ok", 0) < 0.9 * conv:
+    if rep.regimes.get("kkt_inc", 0) > 0.1 * conv:
         raise common.MachineryError("C02: the KKT observation is inconclusive on more than 10% of converged solves")
     rep.cov["distinct_nontrivial"] = len({(t["job"]["N"], t["job"]["W"], t["job"]["kind"], t["job"]["lam"],
                                            t["job"]["lam_form"], t["job"]["rho"], t["job"]["callback"]) for t in ok
